@@ -1180,6 +1180,44 @@ example : (run fresh [.load (.obj (.id 0) (.key 0)), .load (.obj (.id 1) .badB64
 
 end Ident
 
+/-! ### regenerated tables of config/util.go, config/identity.go, config/config.go, interpreted -/
+
+/-- **the regenerated body of `applyIdentityJSON`, interpreted, is the model's `apply`** — for every prior state and
+every ID / key token -/
+theorem gen_ident_apply (s : Ident.St) (i : Ident.IdTok) (k : Ident.KeyTok) :
+    Ident.interp i k Gen.identApplySeq { st := s } = some (Ident.apply s i k) := by
+  cases i <;> cases k <;> simp [Gen.identApplySeq, Ident.interp, Ident.apply, Ident.valid]
+
+/-- the alternative without the final Validate accepts a mismatching pair: witness -/
+theorem ident_without_validate_accepts_mismatch :
+    Ident.interp (.id 0) (.key 1) [.decodeId, .retErr, .setId, .b64, .retErr, .unmarshalKey, .retErr, .setKey, .retNil] { st := {} }
+      = some ({ id := some 0, key := some 1 }, true) := by decide
+
+/-- an arm that assigns exactly the non-zero values is the model's SetIfNotDefault copy -/
+theorem sind_arm_is_loadScalar [DecidableEq α] (arms : List (String × String)) (ty : String) (zero cur d j : α)
+    (h : ∀ z, sindAssigns arms ty z = !z) :
+    (if sindAssigns arms ty (decide (j = zero)) = true then j else cur) = loadScalar .setIfNotDefault zero cur d j := by
+  rw [h]; by_cases hj : j = zero <;> simp [loadScalar, hj]
+
+/-- a type without an arm is never copied (SetIfNotDefault has no default case): every value would be dropped -/
+theorem sind_no_arm_drops (arms : List (String × String)) (ty : String) (h : arms.find? (·.1 == ty) = none) (z : Bool) :
+    sindAssigns arms ty z = false := by
+  simp [sindAssigns, h]
+
+/-- **every row copied with SetIfNotDefault has an arm of its Go type in the regenerated switch, and that arm
+assigns exactly the non-zero values** -/
+theorem table_sind_covers :
+    Gen.fields.all (fun f => !(f.load == .setIfNotDefault || f.load == .parseOrZeroSIND) ||
+      (sindAssigns Gen.sindArms f.ty.goName false && !sindAssigns Gen.sindArms f.ty.goName true)) = true := by decide
+
+/-- the regenerated call order of `Manager.LoadJSONFileAndEnv`, interpreted, is `fileThenEnv`; and
+`Manager.ApplyEnvVars` reaches the component sections and the cluster section -/
+theorem gen_file_env_order [DecidableEq α] (lk : LoadKind) (sk : SaveKind) (zero d file : α) (env : Option α) :
+    runOrder lk sk zero d file env Gen.fileAndEnvOrder d = fileThenEnv lk sk zero d file env := by
+  simp [Gen.fileAndEnvOrder, runOrder, fileThenEnv]
+
+theorem table_manager_env_reach : Gen.managerEnvReach = ["sections", "cluster"] := by decide
+
 namespace Disp
 
 /-- **hide law, as far as the code goes**: the value of a leaf below a top-level hidden field is never part of
